@@ -130,12 +130,14 @@ Definition text_split (sep : N) (s : str) : option str * str :=
 (* split_qname *)
 Definition split_qname (s : str) : qname :=
   match s with
-  | 123 :: r =>
-      match text_split c_rbrace r with
-      | (Some ((_ :: _) as lf), rt) => (Some lf, rt)
-      | _ => (None, s)
-      end
-  | _ => (None, s)            (* the empty string raises IndexError in Python; never an event name *)
+  | c :: r =>
+      if c =? c_lbrace then
+        match text_split c_rbrace r with
+        | (Some ((_ :: _) as lf), rt) => (Some lf, rt)
+        | _ => (None, s)
+        end
+      else (None, s)
+  | [] => (None, s)            (* the empty string raises IndexError in Python; never an event name *)
   end.
 
 (* build_qname(uri, tag) for a non-empty tag *)
@@ -178,8 +180,8 @@ Definition q_xsi_type_m : qname := split_qname qn_xsi_type.
 Definition q_xsi_nil_m : qname := (Some xsi_uri, xsi_nil_local).
 Definition is_xsi_type (q : qname) (v : wvalue) : bool :=
   match v with
-  | VAtom (AText ((123 :: _) as s)) =>
-      qname_eqb q q_xsi_type_m || existsb (str_eqb s) datatype_qnames
+  | VAtom (AText s) =>
+      startswith [c_lbrace] s && (qname_eqb q q_xsi_type_m || existsb (str_eqb s) datatype_qnames)
   | _ => false
   end.
 Definition attr_value_conv (q : qname) (v : wvalue) : wvalue :=
@@ -697,8 +699,9 @@ Definition user_prefixes_legal (user : nsmap) : bool := forallb user_prefix_lega
 (* -- clause: generate_prefix can not overwrite a user entry -------------------------------- *)
 Definition generated_index (p : str) : option N :=
   match p with
-  | 110 :: 115 :: ((_ :: _) as ds) =>
-      if all_digits ds && str_eqb (to_dec (str_val ds)) ds then Some (str_val ds) else None
+  | a :: b :: ((_ :: _) as ds) =>
+      if (a =? 110) && (b =? 115) && all_digits ds && str_eqb (to_dec (str_val ds)) ds
+      then Some (str_val ds) else None
   | _ => None
   end.
 Definition user_entry_no_collision (n : nat) (e : option str * str) : bool :=
@@ -814,3 +817,35 @@ Definition lxml_domain (cfg : wconfig) (user : nsmap) (evs : list wevent) : bool
   forallb (fun e => l_uri_ok (snd e)) (serializer_ns_map user)
   && forallb (fun e => forallb (fun q => match fst q with Some u => l_uri_ok u | None => true end)
                                (event_qnames e ++ event_atom_qnames e)) evs.
+
+(* ================================================================== statements *)
+(* what the document must say: the events, plus the configured root attributes *)
+Definition expected (cfg : wconfig) (evs : list wevent) : option enode :=
+  expected_tree (cfg_schema_location cfg) (cfg_no_ns_schema_location cfg) evs.
+
+(* the clauses of writer_guard, in a fixed order (used by the refutation lemmas) *)
+Definition clause_vector (cfg : wconfig) (user : nsmap) (evs : list wevent) : list bool :=
+  [ user_prefixes_legal user; user_no_collision user; default_not_on_attr cfg user evs;
+    default_qname_ok user evs; names_ok evs; texts_ok cfg evs; no_cr_in_data evs;
+    no_adjacent_data evs; no_late_qname_data evs; nil_content_ok evs; no_clark_datatype_text evs ].
+
+(* C03 for one input, native writer: the output is well-formed, namespace-well-formed and
+   says what the events say — or the call failed with the sanctioned writer error *)
+Definition native_sound_b (cfg : wconfig) (user : nsmap) (evs : list wevent) : bool :=
+  match expected cfg evs with
+  | None => true
+  | Some e =>
+      match run_native cfg user evs with
+      | inl d => match resolve d with Some t => doc_says e t | None => false end
+      | inr err => perr_eqb err PyXmlWriterError
+      end
+  end.
+Definition lxml_sound_b (cfg : wconfig) (user : nsmap) (evs : list wevent) : bool :=
+  match expected cfg evs with
+  | None => true
+  | Some e =>
+      match run_lxml cfg user evs with
+      | inl t => doc_says e t
+      | inr err => perr_eqb err PyXmlWriterError
+      end
+  end.
